@@ -6,3 +6,5 @@ import Stackage.Gen.Conds
 import Stackage.Gen.Facts
 import Stackage.Model.Val
 import Stackage.Model.Ops
+import Stackage.Model.EV
+import Stackage.Model.Equal
